@@ -1,6 +1,7 @@
 package main
 
 import (
+	"fmt"
 	"net"
 	"sort"
 	"strconv"
@@ -270,4 +271,42 @@ func (m *lagMon) Max(from, to int64) time.Duration {
 		}
 	}
 	return worst
+}
+
+// statusProbe asks a real in-process frpc for the phase of its proxies without ever blocking the monitor:
+// a client wedged in its teardown holds its proxy manager's lock for ever, and the status call would block with it.
+type statusProbe struct {
+	cli     *h.Client
+	names   []string
+	mu      sync.Mutex
+	pending chan string // non-nil while a query is in flight
+}
+
+// allRunning reports whether every proxy is in phase "running" ("" = yes, otherwise the reason).
+func (s *statusProbe) allRunning() string {
+	s.mu.Lock()
+	ch := s.pending
+	if ch == nil {
+		ch = make(chan string, 1)
+		s.pending = ch
+		go func() {
+			for _, n := range s.names {
+				if ph := s.cli.ProxyPhase(n); ph != "running" {
+					ch <- fmt.Sprintf("client: %s is %q", n, ph)
+					return
+				}
+			}
+			ch <- ""
+		}()
+	}
+	s.mu.Unlock()
+	select {
+	case r := <-ch:
+		s.mu.Lock()
+		s.pending = nil
+		s.mu.Unlock()
+		return r
+	case <-time.After(2 * time.Second):
+		return "client: status query blocked for 2 s (proxy manager lock held)"
+	}
 }
